@@ -279,15 +279,16 @@ Proof.
     - inversion Hr; subst. destruct (0 <? _); [eapply Inv_core; [|exact HI]; reflexivity | exact HI].
     - destruct (beqb (s_refund_chain e) b_hub) eqn:E2.
       + inversion Hr; subst. destruct (0 <? _); [eapply Inv_core; [|exact HI]; reflexivity | exact HI].
-      + match type of Hr with bind ?r _ = _ => destruct r as [[s2 i2]|?|?] eqn:Hc; simpl in Hr; try discriminate end.
+      + destruct (0 <? _) eqn:Epos; [|inversion Hr; subst; exact HI].
+        match type of Hr with bind ?r _ = _ => destruct r as [[s2 i2]|?|?] eqn:Hc; simpl in Hr; try discriminate end.
         inversion Hr; subst.
         assert (Hk : In (s_refund_chain e) (KC s)).
         { destruct (inv_chains s HI e ltac:(apply in_or_app; auto)) as [_ [Hq|[Hq|Hq]]]; auto.
           - apply beqb_neq in E1. contradiction.
           - apply beqb_neq in E2. contradiction. }
         eapply create_send_inv; [| | |exact Hc].
-        * destruct (0 <? _); [eapply Inv_core; [|exact HI]; reflexivity | exact HI].
-        * destruct (0 <? _); exact Hk.
+        * eapply Inv_core; [|exact HI]; reflexivity.
+        * exact Hk.
         * left. reflexivity. }
   apply (pool_delete_inv (set_tx_status s1 (s_txhash e) ST_REFUNDED []) e).
   eapply Inv_core; [|exact HI1]. reflexivity.
@@ -529,7 +530,6 @@ Proof.
   intros HI H. unfold fee_refunds in H. destruct (_ <=? 0); [inversion H; subst; exact HI|].
   revert H. apply (fold_res_inv Inv).
   - intros st e st' Hst Hf. destruct (_ <? avg); [inversion Hf; subst; exact Hst|].
-    destruct (negb (fits256 _)); [discriminate|].
     destruct (negb (beqb _ b_minter)); [inversion Hf; subst; exact Hst|].
     destruct (_ <=? 0); [inversion Hf; subst; exact Hst|].
     destruct (minter_send st _ _ _ _) as [st1|?|?] eqn:Hm; simpl in Hf; try discriminate.
@@ -750,8 +750,9 @@ Proof.
   inversion H; subst. simpl.
   destruct (beqb (s_refund_chain e) []); [inversion Hr; subst; destruct (0 <? _); reflexivity|].
   destruct (beqb (s_refund_chain e) b_hub); [inversion Hr; subst; destruct (0 <? _); reflexivity|].
+  destruct (0 <? _); [|inversion Hr; subst; reflexivity].
   match type of Hr with bind ?r _ = _ => destruct r as [[s2 i2]|?|?] eqn:Hc; simpl in Hr; try discriminate end.
-  inversion Hr; subst. rewrite (create_send_params _ _ _ _ _ _ _ _ _ _ _ _ _ Hc). destruct (0 <? _); reflexivity.
+  inversion Hr; subst. rewrite (create_send_params _ _ _ _ _ _ _ _ _ _ _ _ _ Hc). reflexivity.
 Qed.
 
 Lemma refund_expired_chain_inv p s chain s' :
@@ -790,7 +791,6 @@ Proof.
   intro H. unfold fee_refunds in H. destruct (_ <=? 0); [inversion H; reflexivity|].
   revert H. apply (fold_res_inv (fun st => st_params st = st_params s)).
   - intros st e st' Hst Hf. destruct (_ <? avg); [inversion Hf; subst st'; exact Hst|].
-    destruct (negb (fits256 _)); [discriminate|].
     destruct (negb (beqb _ b_minter)); [inversion Hf; subst st'; exact Hst|].
     destruct (_ <=? 0); [inversion Hf; subst st'; exact Hst|].
     destruct (minter_send st _ _ _ _) as [st1|?|?] eqn:Hm; simpl in Hf; try discriminate.
